@@ -231,6 +231,13 @@ func (ms MsgServer) InitiateTokenDeposit(ctx context.Context, req *types.MsgInit
 
 	coin := req.Amount
 	bridgeId := req.BridgeId
+
+	// deposits are only accepted for existing bridges; otherwise funds would be
+	// escrowed and a sequence consumed under the id of a bridge created later.
+	if _, err := ms.GetBridgeConfig(ctx, bridgeId); err != nil {
+		return nil, err
+	}
+
 	l1Sequence, err := ms.IncreaseNextL1Sequence(ctx, bridgeId)
 	if err != nil {
 		return nil, err
